@@ -33,20 +33,27 @@ def scaledDiv (num den : Nat) (e : Int) : Nat × Nat × Nat :=
 def roundHE (q r d : Nat) : Nat :=
   if 2 * r < d then q else if 2 * r > d then q + 1 else if q % 2 = 0 then q else q + 1
 
-/-- nearest double (ties to even) of `num / den`, `num > 0`; `none` = overflow to infinity -/
-def nearestF64 (num den : Nat) : Option (Nat × Int) :=
+/-- the binary exponent at which `num / den` is rounded: the one for which the truncated quotient has exactly 53
+bits, not below -1074 (subnormal range) -/
+def chooseExp (num den : Nat) : Int :=
   -- estimate of the binary exponent of the quotient
   let e0 : Int := (Nat.log2 num : Int) - (Nat.log2 den : Int) - 52
   -- the exponent for which the truncated quotient has exactly 53 bits
   let pick (e : Int) : Bool := let q := (scaledDiv num den e).1; 2 ^ 52 ≤ q && q < 2 ^ 53
   let e1 : Int := if pick e0 then e0 else if pick (e0 - 1) then e0 - 1 else if pick (e0 + 1) then e0 + 1 else e0 - 2
   -- subnormal range: the exponent does not go below -1074
-  let e2 : Int := if e1 < -1074 then -1074 else e1
+  if e1 < -1074 then -1074 else e1
+
+/-- `num / den` rounded to a multiple of `2^e2` (nearest, ties to even); `none` = overflow to infinity -/
+def roundAt (num den : Nat) (e2 : Int) : Option (Nat × Int) :=
   let s := scaledDiv num den e2
   let m := roundHE s.1 s.2.1 s.2.2
   -- rounding up may carry into the next binade
   let me : Nat × Int := if m = 2 ^ 53 then (2 ^ 52, e2 + 1) else (m, e2)
   if me.2 + 52 ≥ 1024 then none else some me
+
+/-- nearest double (ties to even) of `num / den`, `num > 0`; `none` = overflow to infinity -/
+def nearestF64 (num den : Nat) : Option (Nat × Int) := roundAt num den (chooseExp num den)
 
 /-- `float(sign + ip + '.' + fp)` -/
 def toF64 (sign ip fp : Cps) : Option F64 :=
